@@ -83,10 +83,15 @@ def evaluate_expression(expression: str, context: dict[str, Any]) -> Any:
 
     try:
         tree = ast.parse(expr, mode="eval")
-    except SyntaxError as e:
+    except (SyntaxError, ValueError, RecursionError, MemoryError) as e:
+        # ast.parse also raises ValueError (null bytes), RecursionError and
+        # MemoryError (deeply nested input); callers only catch ExpressionError.
         raise ExpressionError(f"Invalid expression syntax: {e}") from e
 
-    return _eval_node(tree.body, context)
+    try:
+        return _eval_node(tree.body, context)
+    except RecursionError as e:
+        raise ExpressionError("Expression is nested too deeply") from e
 
 
 def _eval_node(node: ast.AST, context: dict[str, Any]) -> Any:
@@ -118,7 +123,11 @@ def _eval_node(node: ast.AST, context: dict[str, Any]) -> Any:
         else:
             key = _eval_node(node.slice, context)
         if isinstance(value, dict):
-            return value.get(key)
+            try:
+                return value.get(key)
+            except TypeError as e:
+                # unhashable key, e.g. d[[1]] or d[x] with x a list
+                raise ExpressionError(f"Invalid subscript key of type {type(key).__name__}: {e}") from e
         if isinstance(value, (list, tuple)) and isinstance(key, int):
             try:
                 return value[key]
@@ -155,7 +164,10 @@ def _eval_node(node: ast.AST, context: dict[str, Any]) -> Any:
         unary_func = _SAFE_UNARY_OPS.get(type(node.op))
         if unary_func is None:
             raise ExpressionError(f"Unsupported unary operator: {type(node.op).__name__}")
-        return unary_func(operand)
+        try:
+            return unary_func(operand)
+        except TypeError as e:
+            raise ExpressionError(f"Cannot apply {type(node.op).__name__} to {type(operand).__name__}: {e}") from e
 
     if isinstance(node, ast.IfExp):
         test = _eval_node(node.test, context)
